@@ -144,10 +144,23 @@ pub fn run(rep: &mut Report, tier: &str, seed: u64) {
         for (k, e) in esc.iter().enumerate() {
             let groups = regexes[k].captures_len();
             let attrs: Vec<String> = (0..groups).map(|g| format!("g{} = ${}", g, g)).collect();
-            text.push_str(&format!("    \"{}\" {{\n      node a\n      attr (a) arm = {}, {}\n", e, k, attrs.join(", ")));
+            // the bindings of $k hold in the WHOLE arm block: also inside the blocks nested in it
+            let (open, close): (&str, &str) = match r.below(8) {
+                0 => ("      if #true {\n", "      }\n"),
+                1 => ("      if #false {\n      } elif #true {\n", "      }\n"),
+                2 => ("      if #false {\n      } else {\n", "      }\n"),
+                3 => ("      for _w in [1] {\n", "      }\n"),
+                4 => ("      if #true {\n      for _w in [1] {\n      if (not #false) {\n", "      }\n      }\n      }\n"),
+                _ => ("", ""),
+            };
+            if !open.is_empty() {
+                rep.count("arm-body-in-nested-block");
+            }
+            text.push_str(&format!("    \"{}\" {{\n{}      node a\n      attr (a) arm = {}, {}\n", e, open, k, attrs.join(", ")));
             if nested && k == 0 {
                 text.push_str("      scan $0 {\n        \"[ab]\" {\n          node b\n          attr (b) arm = 100, g0 = $0\n        }\n      }\n");
             }
+            text.push_str(close);
             text.push_str("    }\n");
         }
         text.push_str("  }\n}\n");
